@@ -600,6 +600,54 @@ Ev(e, env, st) ==
     [] OTHER -> ErrR("stuck:unknown-node-" \o e.k, st)
 
 (***************************************************************************)
+(* Static name resolution: every use of a name has an enclosing declaration *)
+(* that textually precedes it (the checker rejects a program otherwise).    *)
+(***************************************************************************)
+RECURSIVE Scoped(_, _), ScopedSeq(_, _), ScopedAll(_, _)
+ScopedAll(es, bound) == \A i \in 1..Len(es) : Scoped(es[i], bound)
+\* statement list: declarations extend the bound set for what follows
+ScopedSeq(ss, bound) ==
+  IF ss = <<>> THEN TRUE
+  ELSE LET s == Head(ss) IN
+       CASE s.k = "set" -> Scoped(s.e, bound) /\ ScopedSeq(Tail(ss), bound \cup {s.n})
+         [] s.k = "destruct" -> Scoped(s.e, bound) /\ ScopedSeq(Tail(ss), bound \cup {s.ns[i] : i \in 1..Len(s.ns)})
+         [] s.k = "fndecl" -> /\ ScopedSeq(s.body, bound \cup {s.n} \cup {s.ps[i].n : i \in 1..Len(s.ps)})
+                              /\ ScopedSeq(Tail(ss), bound \cup {s.n})
+         [] OTHER -> Scoped(s, bound) /\ ScopedSeq(Tail(ss), bound)
+Opt(e, bound) == e = NoneV \/ Scoped(e, bound)
+Scoped(e, bound) ==
+  CASE e.k \in {"lit", "break", "continue", "mark"} -> TRUE
+    [] e.k = "var" -> e.n \in bound
+    [] e.k \in {"block", "mod"} -> ScopedSeq(e.body, bound)
+    [] e.k \in {"tup", "arr"} -> ScopedAll(e.es, bound)
+    [] e.k = "rep" -> Scoped(e.v, bound) /\ Scoped(e.len, bound)
+    [] e.k = "struct" -> \A i \in 1..Len(e.fs) : Scoped(e.fs[i][2], bound)
+    [] e.k \in {"field", "tupat", "neg", "not", "deref", "iter", "hide", "tick"} -> Scoped(e.e, bound)
+    [] e.k = "at" -> Scoped(e.e, bound) /\ Scoped(e.i, bound)
+    [] e.k = "slice" -> Scoped(e.e, bound) /\ Opt(e.a, bound) /\ Opt(e.b, bound) /\ Opt(e.c, bound)
+    [] e.k \in {"bin", "and", "or", "asg"} -> Scoped(e.l, bound) /\ Scoped(e.r, bound)
+    [] e.k = "mut" -> Scoped(e.e, bound)
+    [] e.k = "if" -> Scoped(e.c, bound) /\ Scoped(e.t, bound) /\ Opt(e.f, bound)
+    [] e.k = "ifset" -> Scoped(e.e, bound) /\ Scoped(e.t, bound \cup {e.n}) /\ Opt(e.f, bound)
+    [] e.k = "match" -> Scoped(e.e, bound) /\ \A i \in 1..Len(e.arms) :
+                          LET a == e.arms[i] IN
+                          CASE a.k = "val" -> ScopedAll(a.vs, bound) /\ Scoped(a.b, bound)
+                            [] a.k = "ty" -> Scoped(a.b, bound \cup {a.n})
+                            [] OTHER -> Scoped(a.b, bound)
+    [] e.k = "loop" -> Scoped(e.b, bound)
+    [] e.k = "while" -> Scoped(e.c, bound) /\ Scoped(e.b, bound)
+    [] e.k = "whileset" -> Scoped(e.e, bound) /\ Scoped(e.b, bound \cup {e.n})
+    [] e.k = "for" -> Scoped(e.e, bound) /\ Scoped(e.b, bound \cup {e.n})
+    [] e.k = "ret" -> Opt(e.e, bound)
+    [] e.k = "fn" -> ScopedSeq(e.body, bound \cup {e.ps[i].n : i \in 1..Len(e.ps)})
+    [] e.k = "call" -> Scoped(e.f, bound) /\ ScopedAll(e.args, bound)
+    [] e.k \in {"map", "filter", "part"} -> Scoped(e.it, bound) /\ Scoped(e.f, bound)
+    [] e.k \in {"tfilter", "collect", "red"} -> Scoped(e.it, bound)
+    [] e.k = "reduce" -> Scoped(e.it, bound) /\ Scoped(e.init, bound) /\ Scoped(e.f, bound)
+    [] OTHER -> FALSE
+WellScoped(prog) == ScopedSeq(prog, {"log"})
+
+(***************************************************************************)
 (* Running a program: a statement list with a log cell `log' pre-bound.     *)
 (***************************************************************************)
 InitSt(fuel) == [cells |-> <<[ty |-> Arr(TInt), val |-> ArrV(TNever, <<>>), int |-> FALSE]>>,
